@@ -67,8 +67,8 @@ pub fn spec(prop: &str, tier: Tier) -> Option<PropSpec> {
             id: "C01",
             level: "exploration",
             batches: vec![
-                Batch { engine: "e1", profile: "debug", runs: if q { 400_000 } else { 8_000_000 } },
-                Batch { engine: "e1", profile: "release", runs: if q { 800_000 } else { 30_000_000 } },
+                Batch { engine: "e1", profile: "debug", runs: if q { 1_000_000 } else { 8_000_000 } },
+                Batch { engine: "e1", profile: "release", runs: if q { 2_000_000 } else { 30_000_000 } },
             ],
             exhaustive: false,
             rule: RULE_E1,
@@ -77,8 +77,8 @@ pub fn spec(prop: &str, tier: Tier) -> Option<PropSpec> {
             id: "C04",
             level: "exploration",
             batches: vec![
-                Batch { engine: "e1", profile: "debug", runs: if q { 150_000 } else { 3_000_000 } },
-                Batch { engine: "e1", profile: "release", runs: if q { 350_000 } else { 12_000_000 } },
+                Batch { engine: "e1", profile: "debug", runs: if q { 400_000 } else { 3_000_000 } },
+                Batch { engine: "e1", profile: "release", runs: if q { 900_000 } else { 12_000_000 } },
             ],
             exhaustive: false,
             rule: RULE_E1,
@@ -87,8 +87,8 @@ pub fn spec(prop: &str, tier: Tier) -> Option<PropSpec> {
             id: "C08",
             level: "exploration",
             batches: vec![
-                Batch { engine: "e1", profile: "debug", runs: if q { 150_000 } else { 3_000_000 } },
-                Batch { engine: "e1", profile: "release", runs: if q { 350_000 } else { 12_000_000 } },
+                Batch { engine: "e1", profile: "debug", runs: if q { 400_000 } else { 3_000_000 } },
+                Batch { engine: "e1", profile: "release", runs: if q { 900_000 } else { 12_000_000 } },
             ],
             exhaustive: false,
             rule: RULE_E1,
@@ -97,8 +97,8 @@ pub fn spec(prop: &str, tier: Tier) -> Option<PropSpec> {
             id: "C06",
             level: "fault_enumeration",
             batches: vec![
-                Batch { engine: "e4", profile: "debug", runs: if q { 15_000 } else { 300_000 } },
-                Batch { engine: "e4", profile: "release", runs: if q { 80_000 } else { 3_000_000 } },
+                Batch { engine: "e4", profile: "debug", runs: if q { 30_000 } else { 300_000 } },
+                Batch { engine: "e4", profile: "release", runs: if q { 150_000 } else { 3_000_000 } },
             ],
             exhaustive: false,
             rule: "one evaluation = one generated CIE/FDE program evaluated on unbounded storage and on the whole capacity ladder rows {1,2,3,4,5} x rules {1,2,4,191,192,193} (array and boxed storages), i.e. 31 executions of the real unwind code; the ladder is enumerated exhaustively per program, programs are seeded; non-trivial = the FDE parsed AND every ladder comparison ran to its end; distinct = distinct event-stream digests",
@@ -107,8 +107,8 @@ pub fn spec(prop: &str, tier: Tier) -> Option<PropSpec> {
             id: "C07",
             level: "exploration",
             batches: vec![
-                Batch { engine: "e3", profile: "debug", runs: e3::exhaustive_count(tier) + if q { 100_000 } else { 4_000_000 } },
-                Batch { engine: "e3", profile: "release", runs: e3::exhaustive_count(tier) + if q { 300_000 } else { 20_000_000 } },
+                Batch { engine: "e3", profile: "debug", runs: e3::exhaustive_count(tier) + if q { 300_000 } else { 4_000_000 } },
+                Batch { engine: "e3", profile: "release", runs: e3::exhaustive_count(tier) + if q { 1_200_000 } else { 20_000_000 } },
             ],
             exhaustive: false,
             rule: "one evaluation = one expression program (AST encoded by the harness's own encoder) decoded and evaluated by the real evaluator against the seeded World and compared with the reference model (Requires* sequence with every parameter, result pieces, value result, error kind); first block: every program of length <= 2 (quick) / 3 (thorough) over a 38-symbol alphabet after three boundary operands, each under every iteration limit 0..K+1; then seeded valid/random programs with loops, pieces, nested calls, typed values, wrong-typed answers, storage budgets; non-trivial = >=1 operation decoded AND (an injected fault fired OR the comparison ran to its end); distinct = distinct event-stream digests",
@@ -117,8 +117,8 @@ pub fn spec(prop: &str, tier: Tier) -> Option<PropSpec> {
             id: "C10",
             level: "exploration",
             batches: vec![
-                Batch { engine: "e2", profile: "debug", runs: e2::exhaustive_count(tier) + if q { 30_000 } else { 1_000_000 } },
-                Batch { engine: "e2", profile: "release", runs: e2::exhaustive_count(tier) + if q { 60_000 } else { 4_000_000 } },
+                Batch { engine: "e2", profile: "debug", runs: e2::exhaustive_count(tier) + if q { 100_000 } else { 1_000_000 } },
+                Batch { engine: "e2", profile: "release", runs: e2::exhaustive_count(tier) + if q { 200_000 } else { 4_000_000 } },
             ],
             exhaustive: false,
             rule: "one evaluation = one history of Reader operations applied in lock-step to EndianSlice, EndianRcSlice, EndianArcSlice, EndianReader<CountingBuf>, RelocateReader<identity> and the safe cursor model (first block: every history up to length 3 (quick) / 4 (thorough) over a 20-operation alphabet on a 6-byte buffer, exhaustively), or one whole-section parse repeated under all six reader kinds; non-trivial = >=1 operation/parse item AND the history ran to its end; distinct = distinct event-stream digests",
@@ -127,8 +127,8 @@ pub fn spec(prop: &str, tier: Tier) -> Option<PropSpec> {
             id: "C20",
             level: "exploration",
             batches: vec![
-                Batch { engine: "e6", profile: "debug", runs: e6::uctx_exhaustive(tier).0 + if q { 150_000 } else { 3_000_000 } },
-                Batch { engine: "e6", profile: "release", runs: e6::uctx_exhaustive(tier).0 + if q { 350_000 } else { 12_000_000 } },
+                Batch { engine: "e6", profile: "debug", runs: e6::uctx_exhaustive(tier).0 + if q { 400_000 } else { 3_000_000 } },
+                Batch { engine: "e6", profile: "release", runs: e6::uctx_exhaustive(tier).0 + if q { 900_000 } else { 12_000_000 } },
             ],
             exhaustive: false,
             rule: "one evaluation = one history executed on long-lived state with every step mirrored on fresh state under the same step-relative fault plan; the first block enumerates exhaustively all fault-free UnwindContext histories up to length 2 (quick) / 3 (thorough) over a fixed 16-FDE x 5-step-kind alphabet, the rest are seeded random histories over six families (unwind context, entry buffer, tree re-root, clones, sequence resume, abbreviation cache); non-trivial = the reusable object was exercised (>=1 item) AND (a step failed by an injected fault OR the history ran to its end); distinct = distinct event-stream digests",
